@@ -5,9 +5,9 @@ package blockchain
 import (
 	"github.com/virel-project/virel-blockchain/v3/adb"
 	"github.com/virel-project/virel-blockchain/v3/block"
-	"github.com/virel-project/virel-blockchain/v3/stratum/stratumsrv"
 	"github.com/virel-project/virel-blockchain/v3/p2p"
 	"github.com/virel-project/virel-blockchain/v3/p2p/packet"
+	"github.com/virel-project/virel-blockchain/v3/stratum/stratumsrv"
 	"github.com/virel-project/virel-blockchain/v3/transaction"
 	"github.com/virel-project/virel-blockchain/v3/util"
 	"github.com/virel-project/virel-blockchain/v3/util/uint128"
@@ -67,6 +67,7 @@ const VerifMaxDeviation = maxDeviation
 
 // VerifHandleStratumConn is the per-connection stratum handler (login, submit).
 func (bc *Blockchain) VerifHandleStratumConn(v *stratumsrv.Conn) error { return bc.handleConn(v) }
+
 // VerifPacketTx handles a TX packet payload exactly as the p2p dispatcher does (packetTx: decode, Prevalidate at
 // TopHeight+1, AddTransaction into the mempool inside one DB.Update).
 func (bc *Blockchain) VerifPacketTx(data []byte) {
